@@ -1,2 +1,2 @@
-import sys; sys.path.insert(0,'/tmp/fixes'); from edit import rep
+import sys; sys.path.insert(0,'/verif/tools'); from edit import rep
 rep('segno/writers.py', "            return 1 / 255.0 * c if c != 1 else c\n", "            return 1 / 255.0 * c\n", count=2)
